@@ -91,6 +91,15 @@ fn lockstep(a: &mut dyn Gen, b: &mut dyn Gen, ops: &[Op]) -> Result<(), (usize, 
 }
 
 pub fn check_clone(c: &CloneCase) -> CheckResult {
+    let _ = adapter::take_ne_inconsistency();
+    let r = check_clone_inner(c);
+    if let (Ok(_), Some(t)) = (&r, adapter::take_ne_inconsistency()) {
+        return Err(Fail::new(format!("C10:ne-inconsistent:{}", t.rsplit("::").next().unwrap_or(t)), "`a != b` is not the negation of `a == b` for two generators compared in this case"));
+    }
+    r
+}
+
+fn check_clone_inner(c: &CloneCase) -> CheckResult {
     let info = c.spec.ty().info();
     let mut g = c.spec.build();
     run(&mut *g, c.pre, &c.hist);
@@ -185,6 +194,15 @@ fn tweak_json(v: &mut Value, field: usize, delta: u64) -> bool {
 }
 
 pub fn check_pair(c: &PairCase) -> CheckResult {
+    let _ = adapter::take_ne_inconsistency();
+    let r = check_pair_inner(c);
+    if let (Ok(_), Some(t)) = (&r, adapter::take_ne_inconsistency()) {
+        return Err(Fail::new(format!("C10:ne-inconsistent:{}", t.rsplit("::").next().unwrap_or(t)), "`a != b` is not the negation of `a == b` for two generators compared in this case"));
+    }
+    r
+}
+
+fn check_pair_inner(c: &PairCase) -> CheckResult {
     let ty = c.spec.ty();
     let info = ty.info();
     let mut a = c.spec.build();
@@ -276,6 +294,15 @@ pub struct BitPairCase {
 }
 
 pub fn check_bit_pair(c: &BitPairCase) -> CheckResult {
+    let _ = adapter::take_ne_inconsistency();
+    let r = check_bit_pair_inner(c);
+    if let (Ok(_), Some(t)) = (&r, adapter::take_ne_inconsistency()) {
+        return Err(Fail::new(format!("C10:ne-inconsistent:{}", t.rsplit("::").next().unwrap_or(t)), "`a != b` is not the negation of `a == b` for two generators compared in this case"));
+    }
+    r
+}
+
+fn check_bit_pair_inner(c: &BitPairCase) -> CheckResult {
     let mut s2 = c.base.bytes.clone();
     s2[c.i / 8] ^= 1 << (c.i % 8);
     if c.j != c.i {
@@ -300,6 +327,15 @@ pub fn check_bit_pair(c: &BitPairCase) -> CheckResult {
 }
 
 pub fn check_hc_pos(c: &HcPosCase) -> CheckResult {
+    let _ = adapter::take_ne_inconsistency();
+    let r = check_hc_pos_inner(c);
+    if let (Ok(_), Some(t)) = (&r, adapter::take_ne_inconsistency()) {
+        return Err(Fail::new(format!("C10:ne-inconsistent:{}", t.rsplit("::").next().unwrap_or(t)), "`a != b` is not the negation of `a == b` for two generators compared in this case"));
+    }
+    r
+}
+
+fn check_hc_pos_inner(c: &HcPosCase) -> CheckResult {
     let mut a = adapter::from_seed(Ty::Hc128, &c.seed.bytes);
     let mut b = adapter::from_seed(Ty::Hc128, &c.seed.bytes);
     for _ in 0..c.block * 16 + c.ca {
@@ -359,6 +395,11 @@ pub fn check_core(c: &CoreCase) -> CheckResult {
                 }
             }
             let eq = a == b;
+            #[allow(clippy::nonminimal_bool)]
+            let ne = a != b;
+            if eq == ne {
+                return Err(Fail::new(format!("C10:ne-inconsistent:{}", $name), format!("`a != b` ({}) is not the negation of `a == b` ({}) for two block cores{}", ne, eq, if crafted { " (serde-crafted pair)" } else { "" })));
+            }
             if !crafted && !eq {
                 return Err(Fail::new(format!("C10:core-clone-ne:{}", $name), "clone of a block core does not compare equal"));
             }
@@ -533,7 +574,7 @@ pub fn def(ctx: &Ctx) -> PropDef {
         "cores",
         t.pick(8000, 600_000),
         || {
-            (0u8..3, gens::seed_for(Ty::Isaac, true), 0usize..=5, 0usize..=4, proptest::option::weighted(0.6, (0usize..1024, any::<u64>())))
+            (0u8..3, gens::seed_for(Ty::Isaac, true), prop_oneof![6 => 0usize..=5, 2 => 60usize..=68, 1 => 124usize..=132, 1 => 250usize..=260], 0usize..=4, proptest::option::weighted(0.6, (0usize..1024, any::<u64>())))
                 .prop_map(|(which, seed, blocks_before, blocks_after, craft)| CoreCase { which, seed, blocks_before, blocks_after, craft })
                 .boxed()
         },
